@@ -232,6 +232,6 @@ def parse_op(line):
     if k == "subscribe":
         o, hid = int(p.next()), int(p.next())
         return (k, o, hid, p.effs())
-    if k in ("stabilise", "isstable", "stats"):
+    if k in ("stabilise", "isstable", "stats", "dropexports"):
         return (k,)
     raise ValueError("op " + line)
